@@ -47,6 +47,8 @@ struct Directive {
     effect_param: Option<(String, String)>,
     from_fn: BTreeMap<usize, usize>,
     expect_loops: Option<usize>,
+    /// N15 closure lifting: (let-bound name of the immediately invoked closure, helper fn name, helper parameter list text)
+    lift: Option<(String, String, String)>,
     attrs: String,
     line: usize,
     /// parameters whose type is rewritten (N14 effect threading etc. are not done here; this is only
@@ -106,6 +108,16 @@ fn parse_template(text: &str) -> Vec<(bool, String, Option<Directive>)> {
                     "effect-param" => d.effect_param = Some((args[0].to_string(), args[1..].join(" "))),
                     "effect" => d.effects.push((args[0].to_string(), args[1].to_string(), args.get(2).unwrap_or(&"").to_string())),
                     "loops" => d.expect_loops = Some(args[0].parse().unwrap()),
+                    "lift-closure" => {
+                        // //@lift-closure <let name> <helper>(<params>)
+                        let r = rest["lift-closure".len()..].trim();
+                        let (nm, tail) = r.split_once(char::is_whitespace).unwrap_or((r, ""));
+                        let tail = tail.trim();
+                        let open = tail.find('(').unwrap_or(tail.len());
+                        let helper = tail[..open].trim().to_string();
+                        let params = tail[open..].trim().trim_start_matches('(').trim_end_matches(')').to_string();
+                        d.lift = Some((nm.to_string(), helper, params));
+                    }
                     "from_fn" => {
                         d.from_fn.insert(args[0].parse().unwrap(), args[1].parse().unwrap());
                     }
@@ -557,6 +569,163 @@ fn marker_arg(t: &str, name: &str) -> Option<usize> {
     }
 }
 
+
+/// N25 (opt=flatten): `crate::a::b::x` / `plonky2::a::b::X` paths are cut to their last segment — the unit flattens the module
+/// tree, so a fully qualified path names the same item as its last segment (a clash is a Rust error in the unit)
+struct FlattenPaths(usize);
+impl VisitMut for FlattenPaths {
+    fn visit_path_mut(&mut self, p: &mut syn::Path) {
+        syn::visit_mut::visit_path_mut(self, p);
+        if p.segments.len() > 2 {
+            let first = p.segments[0].ident.to_string();
+            if first == "crate" || first == "plonky2" {
+                let last = p.segments.last().unwrap().clone();
+                let mut np = syn::punctuated::Punctuated::new();
+                np.push(last);
+                p.segments = np;
+                p.leading_colon = None;
+                self.0 += 1;
+            }
+        }
+    }
+}
+
+
+/// N27: a type parameter bounded only by `AsRef<T>` is instantiated at `&T`; `x.as_ref()` on such a parameter becomes `x`
+/// (the conversion is the caller's; the body only ever sees the `&T`)
+fn inst_asref(sig: &mut syn::Signature, block: &mut syn::Block) -> usize {
+    let mut inst: Vec<(String, syn::Type)> = vec![];
+    let mut keep = syn::punctuated::Punctuated::new();
+    for gp in sig.generics.params.clone() {
+        let mut taken = false;
+        if let syn::GenericParam::Type(tp) = &gp {
+            if tp.bounds.len() == 1 {
+                if let syn::TypeParamBound::Trait(tb) = &tp.bounds[0] {
+                    let last = tb.path.segments.last().unwrap();
+                    if last.ident == "AsRef" {
+                        if let syn::PathArguments::AngleBracketed(ab) = &last.arguments {
+                            if let Some(syn::GenericArgument::Type(t)) = ab.args.first() {
+                                inst.push((tp.ident.to_string(), t.clone()));
+                                taken = true;
+                            }
+                        }
+                    }
+                }
+            }
+        }
+        if !taken { keep.push(gp); }
+    }
+    if inst.is_empty() { return 0; }
+    sig.generics.params = keep;
+    let mut vars: Vec<String> = vec![];
+    for a in sig.inputs.iter_mut() {
+        if let syn::FnArg::Typed(pt) = a {
+            if let syn::Type::Path(tp) = &*pt.ty {
+                if let Some(id) = tp.path.get_ident() {
+                    if let Some((_, t)) = inst.iter().find(|(n, _)| id == n) {
+                        let t = t.clone();
+                        pt.ty = Box::new(syn::parse_quote!(&#t));
+                        if let syn::Pat::Ident(pi) = &*pt.pat { vars.push(pi.ident.to_string()); }
+                    }
+                }
+            }
+        }
+    }
+    struct R<'a>(&'a [String]);
+    impl<'a> VisitMut for R<'a> {
+        fn visit_expr_mut(&mut self, e: &mut syn::Expr) {
+            syn::visit_mut::visit_expr_mut(self, e);
+            if let syn::Expr::MethodCall(m) = e {
+                if m.method == "as_ref" && m.args.is_empty() {
+                    if let syn::Expr::Path(p) = &*m.receiver {
+                        if let Some(id) = p.path.get_ident() {
+                            if self.0.contains(&id.to_string()) { *e = (*m.receiver).clone(); }
+                        }
+                    }
+                }
+            }
+        }
+    }
+    R(&vars).visit_block_mut(block);
+    inst.len()
+}
+
+
+/// N15: `let X = (|| -> T { body })();` — an immediately invoked closure (used for `?` scoping) — is lambda-lifted: the body
+/// becomes `fn helper(captures) -> T { body }` and the initialiser becomes `helper(captures)`. The captured variables are
+/// computed here (identifiers used in the body that are parameters or earlier locals of the enclosing function, in order of
+/// first use); their TYPES come from the signature or, for locals, from the side-car's scope table. A capture of reference or
+/// primitive type is passed by value, anything else by shared reference. A wrong table is a Rust error in the unit.
+/// Returns the helper when `want_helper`, and rewrites `f` in place otherwise.
+fn lift_closure(f: &mut syn::ItemFn, lift: &(String, String, String), want_helper: bool) -> Result<Option<syn::ItemFn>, String> {
+    let (letname, helper, table) = lift;
+    let table_p: syn::punctuated::Punctuated<syn::FnArg, syn::Token![,]> =
+        syn::parse::Parser::parse_str(syn::punctuated::Punctuated::parse_terminated, table).map_err(|e| format!("lift-closure scope table: {e}"))?;
+    let mut types: Vec<(String, syn::Type)> = vec![];
+    for a in f.sig.inputs.iter().chain(table_p.iter()) {
+        if let syn::FnArg::Typed(pt) = a { if let syn::Pat::Ident(pi) = &*pt.pat { types.push((pi.ident.to_string(), (*pt.ty).clone())); } }
+    }
+    struct Uses(Vec<String>);
+    impl<'ast> syn::visit::Visit<'ast> for Uses {
+        fn visit_expr_path(&mut self, p: &'ast syn::ExprPath) {
+            if let Some(id) = p.path.get_ident() { let s = id.to_string(); if !self.0.contains(&s) { self.0.push(s); } }
+        }
+        fn visit_macro(&mut self, _m: &'ast syn::Macro) {}
+    }
+    let mut scope: Vec<String> = f.sig.inputs.iter().filter_map(|a| if let syn::FnArg::Typed(pt) = a { if let syn::Pat::Ident(pi) = &*pt.pat { Some(pi.ident.to_string()) } else { None } } else { None }).collect();
+    for st in f.block.stmts.iter_mut() {
+        if let syn::Stmt::Local(l) = st {
+            // the target is found by SHAPE — the first `let <ident> = (closure)()` — so renaming the local does not lose the anchor;
+            // the name in the side-car is a label only
+            let _ = letname;
+            let bound: Option<String> = if let syn::Pat::Ident(pi) = &l.pat { Some(pi.ident.to_string()) } else if let syn::Pat::Type(pt) = &l.pat { if let syn::Pat::Ident(pi) = &*pt.pat { Some(pi.ident.to_string()) } else { None } } else { None };
+            let mut is_iife = false;
+            if let (Some(_), Some(init)) = (&bound, &l.init) {
+                if let syn::Expr::Call(c) = &*init.expr {
+                    if c.args.is_empty() {
+                        let mut inner = &*c.func;
+                        while let syn::Expr::Paren(p) = inner { inner = &*p.expr; }
+                        is_iife = matches!(inner, syn::Expr::Closure(_));
+                    }
+                }
+            }
+            if !is_iife { if let Some(b) = bound { scope.push(b); } continue; }
+            let init = l.init.as_mut().unwrap();
+            let call = match &*init.expr { syn::Expr::Call(c) => c.clone(), _ => unreachable!() };
+            let mut inner = &*call.func;
+            while let syn::Expr::Paren(p) = inner { inner = &*p.expr; }
+            let syn::Expr::Closure(cl) = inner else { unreachable!() };
+            if !cl.inputs.is_empty() { return Err("lift-closure: closure takes parameters".into()); }
+            let syn::ReturnType::Type(_, rty) = &cl.output else { return Err("lift-closure: closure has no declared return type".into()) };
+            let body: syn::Block = match &*cl.body { syn::Expr::Block(b) => b.block.clone(), e => syn::parse_quote!({ #e }) };
+            let mut u = Uses(vec![]);
+            syn::visit::Visit::visit_block(&mut u, &body);
+            let mut params: Vec<syn::FnArg> = vec![];
+            let mut args: Vec<syn::Expr> = vec![];
+            for name in u.0.iter().filter(|n| scope.contains(n)) {
+                let Some((_, ty)) = types.iter().find(|(n, _)| n == name) else { return Err(format!("lift-closure: captured local `{name}` has no type in the side-car scope table")) };
+                let id = syn::Ident::new(name, Span::call_site());
+                let by_value = match ty {
+                    syn::Type::Reference(_) => true,
+                    syn::Type::Path(tp) => tp.path.get_ident().map(|i| ["bool", "usize", "u8", "u16", "u32", "u64", "u128", "isize", "i8", "i16", "i32", "i64", "char"].contains(&i.to_string().as_str())).unwrap_or(false),
+                    _ => false,
+                };
+                if by_value { params.push(syn::parse_quote!(#id: #ty)); args.push(syn::parse_quote!(#id)); }
+                else { params.push(syn::parse_quote!(#id: &#ty)); args.push(syn::parse_quote!(&#id)); }
+            }
+            let name = syn::Ident::new(helper, Span::call_site());
+            if want_helper {
+                let rty = (**rty).clone();
+                let hf: syn::ItemFn = syn::parse_quote!(fn #name(#(#params),*) -> #rty #body);
+                return Ok(Some(hf));
+            }
+            init.expr = Box::new(syn::parse_quote!(#name(#(#args),*)));
+            return Ok(None);
+        }
+    }
+    Err(format!("lift-closure: no `let <name> = (closure)()` in the function (anchor lost; label {letname})"))
+}
+
 fn main() {
     let args: Vec<String> = std::env::args().collect();
     let emit_canaries = std::env::var("VX_CANARIES").map(|v| v == "1").unwrap_or(false);
@@ -641,6 +810,25 @@ fn main() {
         let (printed, span, nloops, nrets) = match found {
             Found::Other(mut it) => {
                 let sp = span_lines(it.span());
+                // derives named in the side-car's //@attrs must be derives of the source item (never invented)
+                {
+                    let src_attrs: &[syn::Attribute] = match &it { syn::Item::Struct(s) => &s.attrs, syn::Item::Enum(e) => &e.attrs, _ => &[] };
+                    let mut have: Vec<String> = vec![];
+                    for a in src_attrs {
+                        if a.path().is_ident("derive") {
+                            let _ = a.parse_nested_meta(|m| { if let Some(id) = m.path.segments.last() { have.push(id.ident.to_string()); } Ok(()) });
+                        }
+                    }
+                    if let Ok(want) = syn::parse::Parser::parse_str(syn::Attribute::parse_outer, &d.attrs) {
+                        for a in &want {
+                            if a.path().is_ident("derive") {
+                                let mut missing: Vec<String> = vec![];
+                                let _ = a.parse_nested_meta(|m| { if let Some(id) = m.path.segments.last() { let s = id.ident.to_string(); if !have.contains(&s) { missing.push(s); } } Ok(()) });
+                                for m in missing { problems.push(format!("{} {}: side-car derive({m}) is not derived by the source item (anchor lost)", d.file, d.selector.join(" "))); }
+                            }
+                        }
+                    }
+                }
                 norm::strip_item_attrs(&mut it);
                 {
                     let mut f = norm::FoldShl(0);
@@ -699,10 +887,25 @@ fn main() {
                 if !d.attrs.trim().is_empty() {
                     if let Ok(a) = syn::parse::Parser::parse_str(syn::Attribute::parse_outer, &d.attrs) { f.attrs = a; fn_attrs_done = true; }
                 }
+                if let Some(l) = &d.lift {
+                    let want_helper = d.opts.iter().any(|o| o == "lifted");
+                    match lift_closure(&mut f, l, want_helper) {
+                        Ok(Some(h)) => { f = h; }
+                        Ok(None) => {}
+                        Err(e) => { problems.push(format!("{} {}: {e}", d.file, d.selector.join(" "))); continue; }
+                    }
+                    n.rules.push(norm::RuleApp { rule: "N15".into(), line: sp.0, note: format!("immediately invoked closure `{}` lambda-lifted to fn {}", l.0, l.1) });
+                }
                 if let Some(r) = &d.rename {
                     f.sig.ident = syn::Ident::new(r, f.sig.ident.span());
                 }
                 if let Some((w, ty)) = &d.effect_param { norm::thread_effects(&mut f.sig, &mut f.block, w, ty, &d.effects, &mut n); }
+                if d.opts.iter().any(|o| o == "flatten") {
+                    let mut fl = FlattenPaths(0);
+                    fl.visit_signature_mut(&mut f.sig); fl.visit_block_mut(&mut f.block);
+                    if fl.0 > 0 { n.rules.push(norm::RuleApp { rule: "N25".into(), line: sp.0, note: format!("{} qualified path(s) cut to the last segment", fl.0) }); }
+                }
+                { let k = inst_asref(&mut f.sig, &mut f.block); if k > 0 { n.rules.push(norm::RuleApp { rule: "N27".into(), line: sp.0, note: format!("{k} AsRef<T> type parameter(s) instantiated at &T") }); } }
                 if emit_canaries { canary = canary_for(&f.sig, &d.header, None); }
                 n.run_fn(&mut f.sig, &mut f.block, d.ret.is_some());
                 let mut items: Vec<syn::Item> = std::mem::take(&mut n.hoisted);
@@ -749,6 +952,12 @@ fn main() {
                     sub.visit_impl_item_fn_mut(&mut f);
                 }
                 if d.opts.iter().any(|o| o == "private") { f.vis = syn::Visibility::Inherited; }
+                if d.opts.iter().any(|o| o == "flatten") {
+                    let mut fl = FlattenPaths(0);
+                    fl.visit_signature_mut(&mut f.sig); fl.visit_block_mut(&mut f.block);
+                    if fl.0 > 0 { n.rules.push(norm::RuleApp { rule: "N25".into(), line: sp.0, note: format!("{} qualified path(s) cut to the last segment", fl.0) }); }
+                }
+                { let k = inst_asref(&mut f.sig, &mut f.block); if k > 0 { n.rules.push(norm::RuleApp { rule: "N27".into(), line: sp.0, note: format!("{k} AsRef<T> type parameter(s) instantiated at &T") }); } }
                 if emit_canaries { canary = canary_for(&f.sig, &d.header, Some(&imp)); }
                 n.run_fn(&mut f.sig, &mut f.block, d.ret.is_some());
                 imp.attrs.clear();
